@@ -128,6 +128,19 @@ chk("C09", "model_checking",
     "TLA+ specs (XmlLimit, RrdpDoc) model-checked by TLC incl. liveness; spec->impl replay; impl->spec trace validation of hook events",
     "DESIGN.md §3 C09")
 
+chk("C04", "fault_enumeration",
+    "Decoders.tla models a decoding entry point fed by an adversary: starting from a valid object the adversary applies structure-"
+    "preserving mutations (31 kinds: tag, length form, value, delete, duplicate, splice, segmentation, nesting ...) at chosen TLV nodes "
+    "and picks strict or relaxed mode; the decoder has exactly the outcomes value and error (no panic, no blow-up), every run plan "
+    "terminates, and the capture/re-decode table must satisfy CapImpliesRed (an accessor never re-decodes in a stricter mode than the "
+    "region was captured in). TLC enumerates every plan and table cell; each is replayed against all 11 entry points on real objects "
+    "(built with real keys + the repository's captured files) with every accessor, iterator, validator and re-encoder of whatever "
+    "decodes, under panic capture, an allocation meter and a watchdog. Random multi-mutation fuzz runs are validated by Trace_Decoders.",
+    "Fault enumeration over mutation plans, not all byte strings; budgets instead of exact complexity bounds; memory safety itself is "
+    "outside TLC's reach.",
+    "TLA+ spec (Decoders) model-checked by TLC (safety + liveness); spec->impl replay of every adversary plan with panic/allocation/time guards; impl->spec trace validation of fuzz runs",
+    "DESIGN.md §3 C04")
+
 chk("C05", "model_checking",
     "BuildDecode.tla is the builder-input machine (9 object kinds x serial forms x validity windows straddling the UTCTime/"
     "GeneralizedTime boundaries x resource shapes x URI forms x every insertion order of <= 3 list items) plus the captured-layout "
